@@ -23,7 +23,9 @@ type Explorer struct {
 	// Stop is polled between executions.
 	Stop func() bool
 
-	Executions  int64
+	Executions int64
+	// Deviating: executions whose schedule contains at least one non-default choice
+	Deviating   int64
 	Transitions int64
 	Capped      bool
 	Violations  []Found
@@ -76,6 +78,12 @@ type stackPush struct{ push func([]int, int) }
 func (e *Explorer) checkOne(x *Sched) {
 	{
 		e.Executions++
+		for _, c := range x.Choices {
+			if c != 0 {
+				e.Deviating++
+				break
+			}
+		}
 		e.Transitions += int64(x.steps)
 		if len(x.Points) > e.MaxPoints {
 			e.MaxPoints = len(x.Points)
